@@ -237,7 +237,7 @@ def r6_pass_through(ctx) -> None:
         r.ok("C10.R4", lm.qual, "a correlation rule matches a log source condition through its referenced rules, recursively through referenced correlation rules", lm.loc)
     else:
         r.violation("C10.R4", lm.qual, "self.match(ref.rule) for SigmaRule and SigmaCorrelationRule references", "the log source condition no longer descends into referenced correlation rules: a log-source conditioned field mapping renames the base rules and inner correlations but leaves group-by, alias targets and the condition field of the outer correlation unmapped", lm.loc)
-    r.rule("C10.R6", "condition operator, count, field and percentile reach the templates unchanged: op=correlation_condition_mapping[cond.op], count=cond.count, field=cond.fieldref / rule.condition.fieldref, percentile=rule.condition.percentile; the operator table maps lt,lte,gt,gte,eq,neq to <,<=,>,>=,==,!=; the correlation template receives search, typing, timespan, aggregate, condition and group-by")
+    r.rule("C10.R6", "condition operator, count, field and percentile reach the templates unchanged: op=correlation_condition_mapping[cond.op], count=cond.count, field=escape_and_quote_fieldref(cond.fieldref / rule.condition.fieldref), percentile=rule.condition.percentile; the operator table maps lt,lte,gt,gte,eq,neq to <,<=,>,>=,==,!=; the correlation template receives search, typing, timespan, aggregate, condition and group-by")
     f = prog.func(TQ + ".convert_correlation_condition_from_template")
     calls = [c for c in walk_no_nested(f.node) if isinstance(c, ast.Call) and call_name(c) == "self._format_template"]
     basic = next((c for c in calls if any(k.arg == "op" for k in c.keywords)), None)
@@ -245,7 +245,7 @@ def r6_pass_through(ctx) -> None:
         r.violation("C10.R6", f.qual, "_format_template(template, field=…, op=…, count=…)", "basic condition rendering not found", f.loc)
     else:
         kws = {k.arg: unparse(k.value) for k in basic.keywords}
-        want = {"field": "cond.fieldref", "op": "self.correlation_condition_mapping[cond.op]", "count": "cond.count"}
+        want = {"field": "self.escape_and_quote_fieldref(cond.fieldref)", "op": "self.correlation_condition_mapping[cond.op]", "count": "cond.count"}
         for k, v in want.items():
             if kws.get(k) == v:
                 r.ok("C10.R6", f.qual, f"{k}={v}", f"{f.module.relpath}:{basic.lineno}")
@@ -263,7 +263,7 @@ def r6_pass_through(ctx) -> None:
     calls = [c for c in walk_no_nested(g.node) if isinstance(c, ast.Call) and call_name(c) == "self._format_template"]
     if calls:
         kws = {k.arg: unparse(k.value).replace(" ", "") for k in calls[0].keywords}
-        want = {"field": "rule.condition.fieldrefifisinstance(rule.condition,SigmaCorrelationCondition)else''",
+        want = {"field": "self.escape_and_quote_fieldref(rule.condition.fieldref)ifisinstance(rule.condition,SigmaCorrelationCondition)else''",
                 "percentile": "rule.condition.percentileifisinstance(rule.condition,SigmaCorrelationCondition)andrule.condition.percentileisnotNoneelse''",
                 "timespan": "self.convert_timespan(rule.timespan,method)", "search": "search",
                 "groupby": "self.convert_correlation_aggregation_groupby_from_template(rule.group_by,method)"}
